@@ -131,7 +131,28 @@ theorem peakToTrough_eq (wfs : List Mat) (rate : Rat) (hr : 0 < rate) (nanIdx : 
   ⟨Lemmas.peakToTrough_eq wfs rate nanIdx ns nc hns hnc hrect c hc p iM im hp hM hm,
    Lemmas.exportPeakToTrough_length wfs rate nanIdx⟩
 
+/-- "Peak channel FIRST", literally: when no other channel sits at the peak channel's position (the loader replaces
+non-distinct positions, model.py:390-393, so every exported dataset satisfies this) and at least one channel is
+listed, EVERY row the acceptance predicate `nearestOK` admits — in particular the real export's row, whatever the
+tie-breaking of its unstable `argsort` — starts with the peak channel itself.  With two co-located channels the clause
+is not determined: positions `[(0,0),(0,0)]`, peak 1 admits the row `[0, 1]`. -/
+theorem nearestOK_peak_first (pos : List (Rat × Rat)) (probes : List Nat) (peak ncw : Nat) (row : List Nat)
+    (hp : peak < pos.length) (hn : 0 < ncw)
+    (hd : ∀ c, c < pos.length → c ≠ peak → pos.getD c (0, 0) ≠ pos.getD peak (0, 0))
+    (h : nearestOK pos probes peak ncw row = true) : row.head? = some peak :=
+  Lemmas.nearestOK_peak_first pos probes peak ncw row hp hn hd h
+
+/-- … and so does the model's row. -/
+theorem nearest_peak_first (pos : List (Rat × Rat)) (probes : List Nat) (peak ncw : Nat)
+    (hp : peak < pos.length) (hn : 0 < ncw)
+    (hd : ∀ c, c < pos.length → c ≠ peak → pos.getD c (0, 0) ≠ pos.getD peak (0, 0)) :
+    (nearestSameProbe pos probes peak ncw).head? = some peak :=
+  Lemmas.nearest_peak_first pos probes peak ncw hp hn hd
+
 /-! Non-vacuity -/
+example : (nearestSameProbe [(0, 0), (0, 20), (10, 10), (0, 40), (5, 5)] [0, 0, 1, 0, 1] 1 4).head? = some 1 :=
+  nearest_peak_first _ _ 1 4 (by decide) (by decide) (by decide +kernel)
+example : nearestOK [(0, 0), (0, 0)] [0, 0] 1 2 [0, 1] = true := by decide +kernel   -- co-located: not determined
 section Instances
 def exT : Data := ⟨[[[1, 0], [-1, 2]], [[0, 3], [0, -3]], [[5, 5], [1, 1]]], [[2, 0], [0, 1/2]], [1, 2, 1/2], [0, 0, 1]⟩
 def exC : Data := ⟨[[[1, 0], [-1, 2]], [[0, 3], [0, -3]]], [[2, 0], [0, 1/2]], [1, 2, 1/2], [1, 0, 1]⟩
